@@ -26,6 +26,8 @@ struct NoWrite;
 #[async_trait::async_trait]
 impl WriteHalf for NoWrite {
     async fn close(&mut self) -> std::io::Result<()> { Ok(()) }
+    // overridden so that the vtable does not drag the default body (Message Debug, fd passing) into the analysis
+    async fn send_message(&mut self, _msg: &crate::message::Message) -> crate::Result<()> { Ok(()) }
 }
 
 fn stub_command_from_str(_s: &str) -> Result<Command> { Err(Error::InvalidField) }
